@@ -245,7 +245,9 @@ class RuleMessageFieldNamingSnake(Rule[MessageField]):
     ) -> Optional[LintWarning]:
         definition_name = name or definition.name
         expect = snake_case(definition_name)
-        if expect != definition_name:
+        # A lower case name is in snake case already, wherever its digits are:
+        # `crc32` and `value1` need no `crc_32` / `value_1`.
+        if expect != definition_name and definition_name != definition_name.lower():
             return MessageFieldNameNotSnake.from_token(
                 token=definition, suggestion=expect
             )
